@@ -191,6 +191,60 @@ Theorem C15_trimmed_path_leaf : forall pre dir base lt,
 Proof. exact trimmed_path_leaf. Qed.
 Print Assumptions C15_trimmed_path_leaf.
 
+(* SESSIONS: any number of calls, one after the other, on the SAME values - the logger [cs]
+   produces, values derived from it by further conversions [extra], the std-log bridges built once
+   from it (their closure's captured variable is threaded through the calls), the session's slog
+   handler, interleaved with anything else that only reads or clones them (KOther), each call with
+   whatever pooled slab it happens to get: every call gets exactly the entry the property demands
+   of it alone; in particular a recovered log.Panic* leaves nothing behind *)
+Theorem C15_session : forall fuel core cs os calls,
+  (forall us, (length us + 12 <= fuel us)%nat) ->
+  Forall (call_ok cs os) calls ->
+  run_calls (sstep bridge_call fuel (apply_chain (HL (new_logger core)) cs) (new_handler core os))
+            (init_bridges (apply_chain (HL (new_logger core)) cs)) calls
+  = map (fun cn => expected_call core cs os (fst cn)) calls.
+Proof. exact session_thm. Qed.
+Print Assumptions C15_session.
+
+(* the entry of a call is the same after any two histories, and is the one demanded *)
+Theorem C15_session_history_independent : forall fuel core cs os pre1 pre2 cn,
+  (forall us, (length us + 12 <= fuel us)%nat) ->
+  Forall (call_ok cs os) pre1 -> Forall (call_ok cs os) pre2 -> call_ok cs os cn ->
+  let run calls := run_calls (sstep bridge_call fuel (apply_chain (HL (new_logger core)) cs) (new_handler core os))
+                             (init_bridges (apply_chain (HL (new_logger core)) cs)) calls in
+  last (run (pre1 ++ [cn])) None = last (run (pre2 ++ [cn])) None
+  /\ last (run (pre1 ++ [cn])) None = expected_call core cs os (fst cn).
+Proof. exact session_history_independent. Qed.
+Print Assumptions C15_session_history_independent.
+
+(* the n-th call of any session reports the frame of ITS OWN stack at the configured skip *)
+Theorem C15_session_frame : forall fuel core cs os calls n extra f lvl us storage,
+  (forall us, (length us + 12 <= fuel us)%nat) ->
+  Forall (call_ok cs os) calls ->
+  nth_error calls n = Some (KZap extra f lvl us, storage) ->
+  core (fe_level f lvl) = true -> cfg_caller_on (cs ++ extra) = true ->
+  exists o,
+    nth_error (run_calls (sstep bridge_call fuel (apply_chain (HL (new_logger core)) cs) (new_handler core os))
+                         (init_bridges (apply_chain (HL (new_logger core)) cs)) calls) n = Some (Some o)
+    /\ caller_of o = nth_error us (Z.to_nat (total_skip (cs ++ extra))).
+Proof. exact session_frame. Qed.
+Print Assumptions C15_session_frame.
+
+(* the model can express the failure: a bridge closure that assigns the derived logger to its
+   captured variable reports, for a Print after a recovered Panic, the caller's caller *)
+Theorem C15_bridge_leak_refuted :
+  Forall (call_ok leak_chain []) leak_calls /\
+  run_calls (sstep bridge_call_leak (fun us => (length us + 12)%nat) (apply_chain (HL (new_logger leak_core)) leak_chain)
+                   (new_handler leak_core []))
+            (init_bridges (apply_chain (HL (new_logger leak_core)) leak_chain)) leak_calls
+  = [Some (Entry {| e_caller := Some (FU 10); e_stack := []; e_err := false |});
+     Some (Entry {| e_caller := Some (FU 11); e_stack := []; e_err := false |})]
+  /\ map (fun cn => expected_call leak_core leak_chain [] (fst cn)) leak_calls
+  = [Some (Entry {| e_caller := Some (FU 10); e_stack := []; e_err := false |});
+     Some (Entry {| e_caller := Some (FU 10); e_stack := []; e_err := false |})].
+Proof. exact bridge_leak_refuted. Qed.
+Print Assumptions C15_bridge_leak_refuted.
+
 (* the oracle the driver runs accepts what the model observes, on every well-formed case *)
 Theorem C15_wire : forall i, wf i = true -> spec i (model i) = true.
 Proof. exact spec_model. Qed.
@@ -228,4 +282,20 @@ Proof. vm_compute. reflexivity. Qed.
 Example C15_example_wire :
   wf (SL [SZ 0; SL [SZ 1; SZ 2; SZ 3]; SL [SL [SZ 5; SL [SL [SZ 1; SZ 1]; SL [SZ 0; SZ 1]]]; SL [SZ 0]]; SZ 0; SL [SZ 0; SZ (-1)];
           SL [SZ 10; SZ 11; SZ 12]]) = true.
+Proof. vm_compute. reflexivity. Qed.
+(* a session on one logger: Panicln through NewStdLog (recovered), Print on the same bridge, Infow on
+   l.Sugar(), a zapgrpc call, slog Warn: well-formed, and every call reports frame 10 *)
+Definition ex_session : sx :=
+  SL [SZ 3; SL [SL [SZ 5; SL [SL [SZ 1; SZ 1]]]]; SL [SL [SZ 0; SZ 1]]; SL [SZ 0; SZ (-1)];
+      SL [SL [SZ 0; SL []; SL [SZ 2; SZ 0; SZ 6]; SZ 0; SL [SZ 10; SZ 11; SZ 99]];
+          SL [SZ 0; SL []; SL [SZ 2; SZ 0; SZ 0]; SZ 0; SL [SZ 10; SZ 11; SZ 99]];
+          SL [SZ 0; SL [SL [SZ 0]]; SL [SZ 1; SZ 2; SZ 1]; SZ 0; SL [SZ 10; SZ 11; SZ 99]];
+          SL [SZ 2; SZ 0];
+          SL [SZ 1; SZ 2; SZ 4; SL [SZ 10; SZ 11; SZ 99]]]].
+Example C15_example_session_wf : wf ex_session = true.
+Proof. vm_compute. reflexivity. Qed.
+Example C15_example_session :
+  model ex_session
+  = SL [SL [SZ 1; SL [SZ 10]; SL []; SZ 0]; SL [SZ 1; SL [SZ 10]; SL []; SZ 0]; SL [SZ 1; SL [SZ 10]; SL []; SZ 0];
+        SL [SZ 2]; SL [SZ 1; SL [SZ 10]; SL []; SZ 0]].
 Proof. vm_compute. reflexivity. Qed.
